@@ -2,7 +2,9 @@
    MOD <module in the line format of harness/c09/src/ast.rs>
         -> v0=<ok|err> v1=<ok|err> mem=<init:max|none> fn=<r,r,..>   r = ok:<maxheight>:<ends_early 0|1> | err | skip | notype
    LEB <u32|u64|i32|i64> <hex bytes>
-        -> ok <value> <consumed> | err *)
+        -> ok <value> <consumed> | err
+   IMP <v0|v1|v1n> <dup 0|1> <module name hex|-> <item name hex|-> <np> t.. <nr> t..   -> true | false
+   EXP <v0|v1> <name hex|-> <np> t.. <nr> t..                                          -> true | false *)
 open C09_model
 
 exception Bad of string
@@ -178,6 +180,39 @@ let do_leb (r : rd) : string =
        | Some (v, rest) -> Printf.sprintf "ok %s %d" (Int64.to_string (int64_of_z v)) (total - List.length rest)
        | None -> "err")
 
+(* ---------- import / export tables ---------- *)
+let ascii_of_char (c : char) : ascii =
+  let n = Char.code c in
+  let b i = (n lsr i) land 1 = 1 in
+  Ascii (b 0, b 1, b 2, b 3, b 4, b 5, b 6, b 7)
+let coq_string (s : string) : string0 =
+  let rec go i = if i >= String.length s then EmptyString else String (ascii_of_char s.[i], go (i + 1)) in go 0
+let str_of_hex (h : string) : string =
+  String.init (String.length h / 2) (fun i -> Char.chr (int_of_string ("0x" ^ String.sub h (2 * i) 2)))
+let hexarg (t : string) : string = if t = "-" then "" else str_of_hex t
+let read_ft (r : rd) : functype =
+  let np = num r in
+  let ps = times np (fun () -> vt_of (next r)) in
+  let nr = num r in
+  let res = if nr = 1 then Some (vt_of (next r)) else None in
+  { ft_params = ps; ft_result = res }
+let do_imp (r : rd) : string =
+  let v = next r in
+  let dup = num r = 1 in
+  let md = coq_string (hexarg (next r)) in
+  let nm = coq_string (hexarg (next r)) in
+  let ft = read_ft r in
+  let b = match v with
+    | "v0" -> import_ok_v0 dup md nm ft
+    | "v1" -> import_ok_v1 true false dup md nm ft
+    | _ -> import_ok_v1 false false dup md nm ft in
+  if b then "true" else "false"
+let do_exp (r : rd) : string =
+  let v = next r in
+  let nm = coq_string (hexarg (next r)) in
+  let ft = read_ft r in
+  if (match v with "v0" -> export_ok_v0 nm ft | _ -> export_ok_v1 nm ft) then "true" else "false"
+
 let () =
   try
     while true do
@@ -189,6 +224,8 @@ let () =
           (match next r with
            | "MOD" -> do_mod r
            | "LEB" -> do_leb r
+           | "IMP" -> do_imp r
+           | "EXP" -> do_exp r
            | c -> "bad-command " ^ c)
         with Bad s -> "unrepresentable " ^ s
            | Failure s -> "unrepresentable " ^ s
